@@ -137,3 +137,67 @@ func VxC14FlushFailure() {
 	}
 	vx.Assert(cnt == 1, "only-flushed-entries-visible")
 }
+
+// C14-H4: the batch headers a sequence of flushes writes satisfy the contract of the record reader
+// the store is replayed through (Pebble's WAL reader returns a batch only if its sequence number is
+// greater than that of the last batch it returned, and a batch occupies Count sequence numbers):
+// every flushed batch starts at or after the end of the previous one, with a strictly greater
+// sequence number, whatever mix of entry and prune records the batches hold. Otherwise a batch that
+// was flushed and fsynced is silently skipped when the store is re-opened.
+type vxCaptureWriter struct {
+	batches [][]byte
+	size    int64
+}
+
+func (w *vxCaptureWriter) WriteRecord(p []byte, o pebblewal.SyncOptions, _ pebblewal.RefCount) (int64, error) {
+	w.batches = append(w.batches, append([]byte(nil), p...))
+	w.size += int64(len(p)) + 11
+	o.Done.Done()
+	return w.size, nil
+}
+func (w *vxCaptureWriter) Close() (int64, error)            { return w.size, nil }
+func (w *vxCaptureWriter) Metrics() record.LogWriterMetrics { return record.LogWriterMetrics{} }
+
+func VxC14BatchHeadersFollowReaderContract() {
+	vx.Bound("2..3 flushes in one WAL file; each batch holds 1..2 records, each an entry (start of a symbolic height) or a prune marker (symbolic height); headers decoded from the bytes handed to the writer")
+	cw := &vxCaptureWriter{}
+	s := vxNewStore(0)
+	s.wal = &walWriter{writer: cw, currentWALNum: 1, nextWALNum: 2}
+	flushes := 2 + vx.Choice("flushes", 2)
+	for f := 0; f < flushes; f++ {
+		n := 1 + vx.Choice("records", 2)
+		prunesOnly := true
+		for r := 0; r < n; r++ {
+			h := types.Height(vx.U64("h"))
+			vx.Assume(h >= 1 && h < 1<<40)
+			if vx.Choice("kind", 2) == 0 {
+				st := wal.Start(h)
+				vx.Assert(s.SetWALEntry(&st) == nil, "set-entry")
+				prunesOnly = false
+			} else {
+				vx.Assert(s.DeleteWALEntries(h) == nil, "queue-prune")
+			}
+		}
+		if prunesOnly {
+			vx.Cover("prune-only-batch")
+		}
+		before := len(cw.batches)
+		vx.Assert(s.Flush() == nil, "flush-ok")
+		if len(cw.batches) == before {
+			// nothing was pending (prunes coalesced away): no batch, nothing to check
+			vx.Cover("opt:empty-flush")
+		}
+	}
+	var lastSeq, lastEnd uint64
+	for i, b := range cw.batches {
+		vx.Assert(len(b) >= 12, "batch-has-a-header")
+		seq := uint64(b[0]) | uint64(b[1])<<8 | uint64(b[2])<<16 | uint64(b[3])<<24 | uint64(b[4])<<32 | uint64(b[5])<<40 | uint64(b[6])<<48 | uint64(b[7])<<56
+		cnt := uint64(b[8]) | uint64(b[9])<<8 | uint64(b[10])<<16 | uint64(b[11])<<24
+		vx.Assert(cnt >= 1, "batch-counts-its-records")
+		if i > 0 {
+			vx.Assert(seq > lastSeq, "sequence-number-greater-than-the-previous-batch")
+			vx.Assert(seq >= lastEnd, "sequence-ranges-do-not-overlap")
+		}
+		lastSeq, lastEnd = seq, seq+cnt
+	}
+}
